@@ -35,6 +35,9 @@ def configs(tier, seed):
         {"name": "std-offset-1e4", "offset": 1.0e4, "kwargs": {"nlive": 50}},
         {"name": "std-flow-t", "sharp": 6.0,
          "kwargs": {"nlive": 80, "maximum_uninformed": 80, "shrinkage_expectation": "t", "training_frequency": 80}},
+        # the same questions about a run that died after a checkpoint and was resumed, twice, across the switch to the flow
+        {"name": "std-resumed", "sharp": 4.0, "resume_after": [40, 130], "checkpoint_interval": 5,
+         "kwargs": {"nlive": 60, "maximum_uninformed": 60, "training_frequency": 60}},
     ]
     ins = [
         {"name": "ins-default", "ins": True, "kwargs": {"nlive": 60, "max_iteration": 3, "min_samples": 20, "min_remove": 2}},
@@ -46,6 +49,8 @@ def configs(tier, seed):
          "kwargs": {"nlive": 60, "max_iteration": 3, "min_samples": 20, "min_remove": 2}},
         {"name": "ins-offset-m2000", "ins": True, "offset": -2000.0,
          "kwargs": {"nlive": 60, "max_iteration": 3, "min_samples": 20, "min_remove": 2}},
+        {"name": "ins-resumed", "ins": True, "resume_after": [1, 2],
+         "kwargs": {"nlive": 60, "max_iteration": 4, "min_samples": 20, "min_remove": 2}},
         {"name": "ins-strict-replace", "ins": True,
          "kwargs": {"nlive": 60, "max_iteration": 3, "min_samples": 20, "min_remove": 2, "strict_threshold": True,
                     "draw_constant": False}},
@@ -55,6 +60,9 @@ def configs(tier, seed):
             {"name": "std-stopping", "kwargs": {"nlive": 100, "stopping": 0.5}},
             {"name": "std-flow-logt", "sharp": 10.0, "kwargs": {"nlive": 100, "maximum_uninformed": 100, "training_frequency": 100}},
             {"name": "std-capped-flow", "sharp": 6.0, "kwargs": {"nlive": 60, "maximum_uninformed": 60, "max_iteration": 200}},
+            {"name": "std-resumed-often", "resume_after": [5, 6, 7, 60, 200], "checkpoint_interval": 1, "kwargs": {"nlive": 50}},
+            {"name": "std-resumed-t-capped", "sharp": 6.0, "resume_after": [100], "checkpoint_interval": 10,
+             "kwargs": {"nlive": 60, "maximum_uninformed": 60, "shrinkage_expectation": "t", "max_iteration": 180}},
         ]
         ins += [
             {"name": "ins-replace-all", "ins": True,
@@ -63,6 +71,8 @@ def configs(tier, seed):
              "kwargs": {"nlive": 80, "max_iteration": 5, "min_samples": 30, "min_remove": 2, "reparameterisation": None}},
             # run(redraw_samples=True) cannot complete on the current tree (open finding of C20:
             # ImportanceFlowProposal.unnormalised_weights is never assigned), so there is no completed run to check
+            {"name": "ins-resumed-no-iid-savelogq", "ins": True, "resume_after": [2, 4],
+             "kwargs": {"nlive": 80, "max_iteration": 6, "min_samples": 30, "min_remove": 2, "draw_iid_live": False, "save_log_q": True}},
             {"name": "ins-no-iid-tol", "ins": True,
              "kwargs": {"nlive": 80, "max_iteration": 6, "min_samples": 30, "min_remove": 2, "draw_iid_live": False,
                         "stopping_criterion": "ess", "tolerance": 200.0}},
@@ -143,6 +153,8 @@ def check_std(chk, cfg, r, c02_cases, err_cases):
     if len(r["birth"]) != n_ret or not all(b < l for b, l in zip(r["birth"], S["logL"])):
         bad = [(i, b, l) for i, (b, l) in enumerate(zip(r["birth"], S["logL"])) if not b < l][:3]
         fails.append(("C05:std-birth", f"birth likelihood not strictly below the sample's likelihood at {bad}"))
+    if len(r.get("resumed_at", [])) != len(cfg.get("resume_after", [])):
+        fails.append(("C05:std-resume-did-not-happen", f"resumed at {r.get('resumed_at')} for the requested stops {cfg.get('resume_after')}"))
     if r.get("unstable"):
         fails.append(("C05:std-read-mutates", f"reported results changed after merely reading the public properties of the sampler: {r['unstable'][:6]}"))
     if r.get("dict_error"):
@@ -186,6 +198,8 @@ def check_ins(chk, cfg, r, ins_cases):
     S = r["samples"]
     n_ret, total = len(S["logL"]), sum(r["counts"].values())
     fails = []
+    if len(r.get("resumed_at", [])) != len(cfg.get("resume_after", [])):
+        fails.append(("C05:ins-resume-did-not-happen", f"resumed at {r.get('resumed_at')} for the requested stops {cfg.get('resume_after')}"))
     if r.get("unstable"):
         fails.append(("C05:ins-read-mutates", f"reported results changed after merely reading the public properties of the sampler: {r['unstable'][:6]}"))
     if r.get("dict_error"):
